@@ -293,3 +293,60 @@ package board
 //@   do r := b.MakeMove(m)
 //@   ensures [filter] b.InCheck(old(b.STM)) == !kingSafeAfter(p0, uint16(m))
 //@   ensures [legal]  legal(p0, uint16(m)) == !b.InCheck(old(b.STM))
+//@
+//@ # ---- the `search` views: abstract contracts used when verifying the search (C06, C07, C08).
+//@ # ---- bs(b) is the tuple of all scalar attributes of the board; mkS/tokS/unmkS are the functions
+//@ # ---- computed by MakeMove and UndoMove; the round-trip axiom in search.smt2 is property C03.
+//@ define bs(b) = mkBS(b.SquaresToPiece[0], b.SquaresToPiece[1], b.SquaresToPiece[2], b.SquaresToPiece[3], b.SquaresToPiece[4], b.SquaresToPiece[5], b.SquaresToPiece[6], b.SquaresToPiece[7], b.SquaresToPiece[8], b.SquaresToPiece[9], b.SquaresToPiece[10], b.SquaresToPiece[11], b.SquaresToPiece[12], b.SquaresToPiece[13], b.SquaresToPiece[14], b.SquaresToPiece[15], b.SquaresToPiece[16], b.SquaresToPiece[17], b.SquaresToPiece[18], b.SquaresToPiece[19], b.SquaresToPiece[20], b.SquaresToPiece[21], b.SquaresToPiece[22], b.SquaresToPiece[23], b.SquaresToPiece[24], b.SquaresToPiece[25], b.SquaresToPiece[26], b.SquaresToPiece[27], b.SquaresToPiece[28], b.SquaresToPiece[29], b.SquaresToPiece[30], b.SquaresToPiece[31], b.SquaresToPiece[32], b.SquaresToPiece[33], b.SquaresToPiece[34], b.SquaresToPiece[35], b.SquaresToPiece[36], b.SquaresToPiece[37], b.SquaresToPiece[38], b.SquaresToPiece[39], b.SquaresToPiece[40], b.SquaresToPiece[41], b.SquaresToPiece[42], b.SquaresToPiece[43], b.SquaresToPiece[44], b.SquaresToPiece[45], b.SquaresToPiece[46], b.SquaresToPiece[47], b.SquaresToPiece[48], b.SquaresToPiece[49], b.SquaresToPiece[50], b.SquaresToPiece[51], b.SquaresToPiece[52], b.SquaresToPiece[53], b.SquaresToPiece[54], b.SquaresToPiece[55], b.SquaresToPiece[56], b.SquaresToPiece[57], b.SquaresToPiece[58], b.SquaresToPiece[59], b.SquaresToPiece[60], b.SquaresToPiece[61], b.SquaresToPiece[62], b.SquaresToPiece[63], b.Pieces[0], b.Pieces[1], b.Pieces[2], b.Pieces[3], b.Pieces[4], b.Pieces[5], b.Pieces[6], b.Colors[0], b.Colors[1], uint64(len(b.hashes)), uint64(b.fullMoves), uint8(b.STM), uint8(b.EnPassant), uint8(b.Castles), uint8(b.FiftyCnt))
+//@ define histKept(b) = implies(0 <= gi && gi < old(len(b.hashes)) && gi < len(b.hashes), b.hashes[gi] == old(b.hashes[gi]))
+//@
+//@ func (*Board).MakeMove view search
+//@   trusted definition of mkS/tokS (post-state and token are functions of pre-state and move); the round-trip instance unmkS(mkS(s,m),m,tokS(s,m)) == s is property C03 (scenario board.makeUndo)
+//@   ensures bs(b) == mkS(old(bs(b)), uint16(m)) && uint64(result) == tokS(old(bs(b)), uint16(m))
+//@   ensures unmkS(mkS(old(bs(b)), uint16(m)), uint16(m), tokS(old(bs(b)), uint16(m))) == old(bs(b))
+//@   ensures len(b.hashes) == old(len(b.hashes)) + 1
+//@   ensures histKept(b)
+//@   modifies b.*
+//@
+//@ func (*Board).UndoMove view search
+//@   trusted definition of unmkS; that it inverts mkS is scenario board.makeUndo (C03)
+//@   requires len(b.hashes) >= 1
+//@   ensures bs(b) == unmkS(old(bs(b)), uint16(m), uint64(r))
+//@   ensures histKept(b)
+//@   modifies b.*
+//@
+//@ func (*Board).MakeNullMove view search
+//@   trusted definition of nullS/nullTok; the round-trip instance is scenario board.nullMoveRoundTrip (C03)
+//@   ensures bs(b) == nullS(old(bs(b))) && uint64(result) == nullTok(old(bs(b)))
+//@   ensures unnullS(nullS(old(bs(b))), nullTok(old(bs(b)))) == old(bs(b))
+//@   ensures len(b.hashes) == old(len(b.hashes)) + 1
+//@   ensures histKept(b)
+//@   modifies b.*
+//@
+//@ func (*Board).UndoNullMove view search
+//@   trusted definition of unnullS; that it inverts nullS is scenario board.nullMoveRoundTrip (C03)
+//@   requires len(b.hashes) >= 1
+//@   ensures bs(b) == unnullS(old(bs(b)), uint64(r))
+//@   ensures histKept(b)
+//@   modifies b.*
+//@
+//@ func (*Board).InCheck view search
+//@   trusted read-only (proved: modifies nothing in the main contract)
+//@   modifies nothing
+//@
+//@ func (*Board).Threefold view search
+//@   trusted read-only; result range proved in the main contract
+//@   ensures 1 <= result && result <= 3
+//@   modifies nothing
+//@
+//@ func (*Board).IsCheckmate view search
+//@   trusted read-only (frame by inspection: no stores)
+//@   modifies nothing
+//@
+//@ func (*Board).IsStalemate view search
+//@   trusted read-only (frame by inspection: no stores)
+//@   modifies nothing
+//@
+//@ func (*Board).Hash view search
+//@   trusted read-only
+//@   modifies nothing
